@@ -78,7 +78,10 @@ func (cc *canonCtx) of(v ssa.Value) string {
 	case *ssa.Index:
 		return "elem(" + cc.of(x.X) + ")"
 	case *ssa.Lookup:
-		return "lookup(" + cc.of(x.X) + "," + cc.of(x.Index) + ")"
+		if _, isMap := x.X.Type().Underlying().(*types.Map); isMap {
+			return "val(" + cc.of(x.X) + ")" // some value of the map (the key is dropped)
+		}
+		return "elem(" + cc.of(x.X) + ")"
 	case *ssa.Slice:
 		s := "slice(" + cc.of(x.X)
 		if x.Low != nil {
@@ -103,6 +106,9 @@ func (cc *canonCtx) of(v ssa.Value) string {
 				}
 				return "ok"
 			}
+		}
+		if lk, ok := x.Tuple.(*ssa.Lookup); ok && x.Index == 0 {
+			return cc.of(lk)
 		}
 		return cc.of(x.Tuple) + fmt.Sprintf("#%d", x.Index)
 	case *ssa.Call:
